@@ -17,6 +17,7 @@ class profile_init:
 
     def ensures(ballots, candidates, result):
         return (result.ballots == ballots and implies(len(candidates) > 0, result.candidates == candidates)
+                and implies(len(candidates) == 0 and len(ballots) == 0, len(result.candidates) == 0)
                 and result.total_ballot_wt == wsum(ballots, len(ballots)) and result.num_ballots == len(ballots))
 
 
